@@ -4,7 +4,9 @@
 seed=$1; shift
 [ -z "$(git -C /repo status --porcelain)" ] || { echo "/repo dirty"; exit 2; }
 git -C /repo apply --3way /verif/seeded/$seed/patch.diff || { git -C /repo reset -q --hard HEAD; exit 2; }
+rm -f /verif/.cache/m/check.bin
 /verif/build.sh /verif/.cache/m 2>&1 | grep -v conda | tail -5
 git -C /repo reset -q --hard HEAD
+[ -x /verif/.cache/m/check.bin ] || { echo "BUILD FAILED for $seed"; exit 2; }
 export BIN=/verif/.cache/m/check.bin
 "$@"
